@@ -223,10 +223,14 @@ class C09:
             alternate = {"at": rc.randint(1, max(1, min(total, 12))),
                          "rows": [rc.randrange(m) for _ in range(rc.choice([b, b, 1, b + 1]))],
                          "seed": rc.randrange(1 << 30)}
-        return {"variant": variant, "cfg": cfg, "instances": [E.enc_row(r) for r in rows], "rows": sel,
+        plan = {"variant": variant, "cfg": cfg, "instances": [E.enc_row(r) for r in rows], "rows": sel,
                 "mirror": mirror, "segments": segs, "snapshot": snapshot, "alternate": alternate,
                 "env_eval": env_eval,
                 "policy": {"embed_dim": rc.choice([32, 64]), "layers": rc.choice([1, 2]), "heads": rc.choice([2, 4])}}
+        # TorchRL mode (documented constructor option): step() returns the successor under "next" and leaves the
+        # state it was called on alone -- states handed out earlier (a recorded rollout) stay what they were
+        plan["torchrl"] = rc.random() < 0.25
+        return plan
 
     @staticmethod
     def sample(run):
@@ -425,6 +429,15 @@ def _propose(run, env, pol, plan, td, seg, t, rows):
         if v == "kopt2":
             with run.guard(scope, "get_mask", B=B):
                 m = env.get_mask(td)
+            if B >= 2:
+                for r in range(B):
+                    with run.guard(scope, "get_mask (row alone)", B=1):
+                        ms = env.get_mask(td[r:r + 1])
+                    if not torch.equal(ms[0], m[r]):
+                        _viol(run, scope, "mask", "depends_on_batch_mates",
+                              f"row {r}: the move mask inside the batch differs from the mask of the same state alone",
+                              t=t, row=r)
+                run.probe("mask_solo_vs_batch")
             acts = []
             for r in range(B):
                 opts = torch.nonzero(m[r]).tolist()
@@ -441,6 +454,17 @@ def _propose(run, env, pol, plan, td, seg, t, rows):
             sel = torch.tensor(pairs, dtype=torch.long).view(B, 1)
             with run.guard(scope, "get_mask", B=B):
                 m = env.get_mask(sel + 1, td)
+            if B >= 2:
+                # the moves admitted for an instance are a matter of that instance and its removed pair alone
+                for r in range(B):
+                    with run.guard(scope, "get_mask (row alone)", B=1):
+                        ms = env.get_mask(sel[r:r + 1] + 1, td[r:r + 1])
+                    if not torch.equal(ms[0], m[r]):
+                        d = torch.nonzero(ms[0] != m[r]).tolist()[:3]
+                        _viol(run, scope, "mask", "depends_on_batch_mates",
+                              f"row {r} (pair {pairs[r]} removed; batch-mates removed {pairs}): the reinsertion mask inside "
+                              f"the batch differs from the mask of the same state alone at positions {d}", t=t, row=r)
+                run.probe("mask_solo_vs_batch")
             acts = []
             for r in range(B):
                 opts = torch.nonzero(m[r]).tolist()
@@ -501,8 +525,11 @@ def _execute(run):
     run.stats["runs:" + scope] += 1
     run.probe("init:" + cfg["gen"]["init_sol_type"])
     _seed(run.streams.torch_seed("env"))
+    tmode = bool(plan.get("torchrl"))
     with run.guard(scope, "construct env"):
-        env = _make_env(cfg)
+        env = _make_env(cfg if not tmode else {**cfg, "kw": {**cfg.get("kw", {}), "_torchrl_mode": True}})
+    if tmode:
+        run.probe("torchrl_mode")
     if plan.get("env_eval"):
         env.eval()
     pol = None
@@ -543,7 +570,15 @@ def _execute(run):
             prev_rec = td["rec_current"].tolist()
             prev_cost = [float(x) for x in td["cost_current"].tolist()]
             kind, a = _propose(run, env, pol, plan, td, seg, t, rows)
+            held = (td, _fingerprint(td.exclude("action", "next"))) if (tmode and kind == "action") else None
             td = _apply(run, env, plan, td, kind, a, "first")
+            if held is not None and _fingerprint(held[0].exclude("action", "next")) != held[1]:
+                bad = [k for k in ("rec_current", "rec_best", "cost_current", "cost_bsf", "visited_time")
+                       if k in held[0].keys() and k in td.keys() and held[0][k].data_ptr() == td[k].data_ptr()]
+                _viol(run, scope, "earlier_state", "modified_by_step",
+                      f"TorchRL mode: move {t} changed the state it was taken from (entries shared with the successor: "
+                      f"{bad}); a state recorded before an improving move now pairs its old cost_bsf "
+                      f"{[float(x) for x in held[0]['cost_bsf'].flatten().tolist()]} with the new rec_best", t=t, cfg=cfg)
             run.tick()
             run.probe("move:" + seg["source"])
             run.stats[f"moves:{scope}:{seg['source']}"] += 1
